@@ -84,14 +84,14 @@ pub fn run() {
                 // draining, with a long one the endpoint goes idle first; the address must be free either way
                 let idle_wait = if variant2 == "rebind" { [0u64, 1, 5, 20, 200][(seed >> 20) as usize % 5] } else { 200 };
                 let clones = std::sync::Arc::new(std::sync::atomic::AtomicI64::new(0));
-                let a = if variant2 == "busy" {
+                let a = if variant2 == "busy" || variant2 == "busy-close" {
                     let mut cfg = anemo::Config::default();
                     cfg.shutdown_idle_timeout_ms = Some(idle_wait);
                     Network::bind("127.0.0.1:0")
                         .server_name("teardown")
                         .private_key(key_from_seed(2 * i as u64 + 1))
                         .config(cfg)
-                        .start(Busy::new(clones.clone(), 150 + (seed >> 12) % 200))
+                        .start(Busy::new(clones.clone(), if variant2 == "busy-close" { 700 } else { 150 + (seed >> 12) % 200 }))
                         .unwrap()
                 } else {
                     net(2 * i as u64 + 1, idle_wait)
@@ -109,6 +109,33 @@ pub fn run() {
                     }
                     "after-shutdown" | "rebind" => {
                         let _ = a.shutdown().await;
+                    }
+                    "busy-close" => {
+                        // b's request is inside a's handler (in its blocking section) when b closes the connection: a has seen
+                        // the connection closed and must not list b any more, whatever that handler is doing (C04)
+                        let b2 = b.clone();
+                        let (pa, pb) = (a.peer_id(), b.peer_id());
+                        for _ in 0..200 {
+                            if b.peers().contains(&pa) {
+                                break;
+                            }
+                            tokio::time::sleep(Duration::from_millis(5)).await;
+                        }
+                        let entered = clones.load(Ordering::SeqCst);
+                        tokio::spawn(async move { let _ = b2.rpc(pa, Request::new(Bytes::from_static(b"x"))).await; });
+                        for _ in 0..400 {
+                            if clones.load(Ordering::SeqCst) > entered {
+                                break;
+                            }
+                            tokio::time::sleep(Duration::from_millis(1)).await;
+                        }
+                        let inside = clones.load(Ordering::SeqCst) > entered;
+                        let _ = b.disconnect(pa);
+                        tokio::time::sleep(Duration::from_millis(300)).await;
+                        let stale = a.peers().contains(&pb);
+                        let still_busy = clones.load(Ordering::SeqCst) > entered;
+                        tokio::time::sleep(Duration::from_millis(500)).await;
+                        return (a, b, addr, ((inside && still_busy) as i64, stale as i64));
                     }
                     "busy" => {
                         // b's request is inside a's handler (in its blocking section) when a shuts down: when shutdown()
@@ -141,7 +168,7 @@ pub fn run() {
                 }
                 (a, b, addr, (0, 0))
             });
-            if variant == "busy" {
+            if variant == "busy" || variant == "busy-close" {
                 busy_runs += busy.0 as u64;
                 if busy.0 == 1 && busy.1 != 0 {
                     clones_left += 1;
